@@ -237,7 +237,15 @@ def run_impl(case, fault=None) -> Trace:
         tr.add(f"bandit fix {FIX_BITS}", ("mat", S.double().numpy().copy(), where))
         oracle_state(tr, ag, live[i]["Z"], where)
 
+    alias_note: list[str] = []
+
     def after(where: str):
+        n0 = len(tr.problems)
+        after_(where)
+        if alias_note and len(tr.problems) > n0:
+            tr.problems[n0:] = [p + f" [{alias_note[-1]}]" for p in tr.problems[n0:]]
+
+    def after_(where: str):
         observe(cur, where)
         if len(live) > 1:                   # every other live agent must be exactly where it was
             for i in range(len(live)):
@@ -324,7 +332,8 @@ def run_impl(case, fault=None) -> Trace:
             elif op[0] == "clone":
                 child = agent.clone()
                 if shares_storage(child.sigma_inv, agent.sigma_inv):
-                    tr.problems.append(f"{where}: the clone's sigma_inv shares its memory with the parent's")
+                    # root cause only: the violation is reported where a matrix stops being the inverse
+                    alias_note.append(f"op {oi}: the clone's sigma_inv shares its memory with its parent's (agent {cur})")
                 if len(live) >= MAX_LIVE:            # keep the session small: the copy replaces its parent
                     slot["agent"] = child
                     tr.add("bandit clone", ("eq", "ok", where))
@@ -695,7 +704,7 @@ def selftest(chk: Check) -> None:
             tr, diffs = one_case(chk, ccase)
         finally:
             cls.clone = orig_clone
-        behavioural = [p for p in tr.problems if "shares its memory" not in p]
+        behavioural = [p for p in tr.problems if "bystander" in p]
         if not behavioural or not diffs:
             raise InfraError(f"C19 self-test: clone sharing sigma_inv with its parent in {algo} not noticed on the "
                              f"agents' matrices (oracle: {bool(behavioural)}, correspondence: {bool(diffs)})")
